@@ -88,7 +88,7 @@ func (ck *Check) findDecision(rule string) *decision {
 	st := a.TScaleOpts.Underlying().(*types.Struct)
 	deltaIdx := -1
 	for i := 0; i < st.NumFields(); i++ {
-		if st.Field(i).Name() == "nodesDelta" {
+		if st.Field(i) == field(a.TScaleOpts, "nodesDelta") {
 			deltaIdx = i
 		}
 	}
@@ -420,8 +420,8 @@ func checkC06(ck *Check) {
 
 	// R2 overrides
 	{
-		starve := a.method(a.TController, "isScaleOnStarve")
-		maxAge := a.method(a.TController, "scaleOnMaxNodeAge")
+		starve := a.IsStarve
+		maxAge := a.IsMaxAge
 		for i, ov := range d.override {
 			okGuard := false
 			if c, ok := ov.cond.(*ssa.Call); ok {
@@ -514,10 +514,10 @@ func (ck *Check) exactTaintCount(rule string) {
 	}
 	var deltaT, untT *Term
 	for i := 0; i < st.NumFields(); i++ {
-		switch st.Field(i).Name() {
-		case "nodesDelta":
+		switch st.Field(i) {
+		case field(a.TScaleOpts, "nodesDelta"):
 			deltaT = mkField(paramTerm(prm), st.Field(i))
-		case "untaintedNodes":
+		case field(a.TScaleOpts, "untaintedNodes"):
 			untT = mkField(paramTerm(prm), st.Field(i))
 		}
 	}
@@ -787,7 +787,7 @@ func checkC07(ck *Check) {
 		var N *Term
 		idx := -1
 		for i := 0; i < st.NumFields(); i++ {
-			if st.Field(i).Name() == "nodesDelta" {
+			if st.Field(i) == field(a.TScaleOpts, "nodesDelta") {
 				N = mkField(paramTerm(prm), st.Field(i))
 				idx = i
 			}
